@@ -17,6 +17,10 @@ func init() {
 		&Rule{ID: "EX-ORDER", Doc: "comparison and boolean operators return the specified truth table over all orderings / truth assignments", Run: ruleEXOrder, Min: 11},
 		&Rule{ID: "EX-DISPATCH", Doc: "operator and term-kind registries (datalog, biscuit, printer) are total, injective and name-consistent over the frozen operator list", Run: ruleEXDispatch, Min: 60},
 		&Rule{ID: "EX-STRINGS", Doc: "string, regex, length and set operators call the library function of their own meaning with (left, right) in the specified order", Run: ruleEXStrings, Min: 12},
+		&Rule{ID: "EX-PURE", Doc: "operators do not write through their operands (terms are shared by reference between worlds)", Run: ruleEXPure, Min: 20},
+		&Rule{ID: "EX-SETINCL", Doc: "set inclusion (Contains with a set argument) is 'every right element, examined afresh, has an Equal left element'", Run: ruleEXSetIncl, Min: 3},
+		&Rule{ID: "FX-BIND", Doc: "a rule variable is bound only by MatchedVariables.Insert (first binding under 'unbound', otherwise the verdict is Equal with the existing binding); nothing else writes a binding map except Clone and the nil initialisation", Run: ruleFXBind, Min: 3},
+		&Rule{ID: "EX-ARITY", Doc: "per op kind, every way through one step of Evaluate pops the operator's operands (value 0, unary 1, binary 2: right first, then left), evaluates that very op on them and pushes its result", Run: ruleEXArity, Min: 3},
 		&Rule{ID: "EX-STACK", Doc: "Evaluate tests every Push/Pop error and succeeds only with exactly one value left", Run: ruleEXStack, Min: 8},
 		&Rule{ID: "FX-EQUAL", Doc: "every Term.Equal is type-strict: the comma-ok of the assertion to the receiver's own type gates any true result", Run: ruleFXEqual, Min: 7},
 		&Rule{ID: "FX-UNIFY", Doc: "the bool result of every MatchedVariables.Insert controls a branch", Run: ruleFXUnify, Min: 1},
@@ -1104,5 +1108,350 @@ func (p *Prog) checkSetAlgebra(r *Reporter, st *types.Named) {
 			}
 		}
 		r.Check(ok, p.Pos(fn.Pos()), p.FuncName(fn), "set "+strings.ToLower(m.name), "elements selected by the specified membership test over the full range", "Set."+m.name+": "+why)
+	}
+}
+
+func ruleEXPure(p *Prog, r *Reporter) {
+	globalP = p
+	o := p.own()
+	for _, ifn := range []string{"BinaryOpFunc", "UnaryOpFunc"} {
+		for _, t := range p.opImplementors(ifn) {
+			ev := p.method(t, "Eval")
+			if ev == nil {
+				continue
+			}
+			last := len(ev.Params) - 1 // symbols
+			bad := ""
+			for i := 1; i < last; i++ {
+				if why, mut := o.mutates[ev][i]; mut {
+					bad = "operand " + ev.Params[i].Name() + ": " + why
+				}
+			}
+			r.Check(bad == "", p.Pos(ev.Pos()), p.FuncName(ev), "operands read-only", "Eval (and the helpers it calls) never writes through its operand terms", "an operator writes through one of its operands ("+bad+"): term values are shared by reference between the authority-level world, block worlds and tokens, so evaluating an expression rewrites a fact somewhere else")
+		}
+	}
+}
+
+func ruleEXSetIncl(p *Prog, r *Reporter) {
+	globalP = p
+	t := p.NamedType("datalog", "Contains")
+	var ev *ssa.Function
+	if t != nil {
+		ev = p.method(t, "Eval")
+	}
+	if ev == nil {
+		r.Dunno("?", "datalog.Contains", "Eval", "not found")
+		return
+	}
+	name := p.FuncName(ev)
+	L, R := ev.Params[1].Name(), ev.Params[2].Name()
+	var outer, inner *rangeLoop
+	for _, rl := range rangeLoops(ev) {
+		d := p.D(rl.seq)
+		switch {
+		case strings.HasPrefix(d, R+".(datalog.Set)"):
+			outer = rl
+		case strings.HasPrefix(d, L+".(datalog.Set)"):
+			if outer != nil || true {
+				// the inner loop is the one nested in a loop over the right set
+				inner = rl
+			}
+		}
+	}
+	// choose inner as the left-set loop nested inside outer
+	if outer != nil {
+		inner = nil
+		for _, rl := range rangeLoops(ev) {
+			if rl != outer && outer.body[rl.header] && strings.HasPrefix(p.D(rl.seq), L+".(datalog.Set)") {
+				inner = rl
+			}
+		}
+	}
+	if outer == nil || inner == nil {
+		r.Bad(p.Pos(ev.Pos()), name, "inclusion loops", "no full-range loop over the right set with a nested full-range loop over the left set")
+		return
+	}
+	// the found flag
+	var S *ssa.Phi
+	var eq *ssa.Call
+	for b := range outer.body {
+		for _, in := range b.Instrs {
+			if c, ok := in.(*ssa.Call); ok && c.Call.IsInvoke() && c.Call.Method.Name() == "Equal" && inner.body[b] {
+				if inner.isElem(c.Call.Value) && outer.isElem(c.Call.Args[0]) || outer.isElem(c.Call.Value) && inner.isElem(c.Call.Args[0]) {
+					eq = c
+				}
+			}
+		}
+	}
+	if eq == nil {
+		r.Bad(p.instrPos(inner.header.Instrs[0]), name, "element comparison", "the nested loops do not compare a left element with the current right element using Equal")
+		return
+	}
+	for b := range outer.body {
+		for _, in := range b.Instrs {
+			ph, ok := in.(*ssa.Phi)
+			if !ok || shortType(ph.Type()) != "bool" {
+				continue
+			}
+			for _, lf := range phiLeaves(ph) {
+				if k, isK := lf.val.(*ssa.Const); isK && k.Value != nil && k.Value.String() == "true" {
+					for _, g := range guardsOnEdge(lf.pred, lf.blk) {
+						if g.cond == ssa.Value(eq) && g.val {
+							if S == nil || !inner.body[ph.Block()] || ph.Block() == inner.header {
+								S = ph
+							}
+						}
+					}
+				}
+			}
+		}
+	}
+	if S == nil {
+		r.Bad(p.instrPos(eq), name, "found flag", "no per-element flag that becomes true when an Equal left element is found")
+		return
+	}
+	fresh := true
+	for _, ph := range phiChain(S) {
+		if ph.Block() == outer.header {
+			fresh = false
+		}
+	}
+	r.Check(fresh, p.instrPos(eq), name, "flag per right element", "the found flag starts false for every right element", "the found flag is carried from one right element to the next: once one element was found, later missing elements go unnoticed ([1,2].contains([1,0]) is true)")
+	// false is returned when an element was not found; true only after the whole right set
+	okFalse, okTrue := false, false
+	for _, ret := range returnsOf(ev) {
+		if !isNilConst(retVal(ret, 1)) {
+			continue
+		}
+		v := retVal(ret, 0)
+		d := p.D(v)
+		if d == "false:datalog.Bool" && outer.inside(ret.Block()) && hasGuard(ret.Block(), S, false) {
+			okFalse = true
+		}
+		if d == "true:datalog.Bool" && (outer.doneBB == ret.Block() || outer.doneBB.Dominates(ret.Block())) {
+			okTrue = true
+		}
+	}
+	r.Check(okFalse, p.instrPos(eq), name, "missing element", "false as soon as a right element has no Equal left element", "no 'return false' guarded by the element-not-found flag inside the loop over the right set")
+	r.Check(okTrue, p.instrPos(eq), name, "all elements found", "true only after every right element was examined", "true is not returned exactly after the loop over all right elements")
+}
+
+// ---- EX-ARITY: path enumeration through one iteration of Evaluate
+
+func ruleEXArity(p *Prog, r *Reporter) {
+	globalP = p
+	expr := p.NamedType("datalog", "Expression")
+	var ev *ssa.Function
+	if expr != nil {
+		ev = p.method(expr, "Evaluate")
+	}
+	if ev == nil {
+		r.Dunno("?", "datalog.Expression", "Evaluate", "not found")
+		return
+	}
+	name := p.FuncName(ev)
+	var rl *rangeLoop
+	for _, l := range rangeLoops(ev) {
+		if strings.HasPrefix(p.D(l.seq), "*e") || p.D(l.seq) == "e" {
+			rl = l
+		}
+	}
+	if rl == nil {
+		r.Bad(p.Pos(ev.Pos()), name, "op loop", "no full-range loop over the expression's ops")
+		return
+	}
+	kinds := map[int64]string{}
+	for _, k := range []string{"OpTypeValue", "OpTypeUnary", "OpTypeBinary"} {
+		if c := constByName(p, "datalog", k); c != nil {
+			kinds[*c] = k
+		}
+	}
+	want := map[string][2]int{"OpTypeValue": {0, 1}, "OpTypeUnary": {1, 1}, "OpTypeBinary": {2, 1}}
+	type step struct {
+		call *ssa.Call
+		name string
+	}
+	seenKind := map[string]bool{}
+	nPaths := 0
+	var walk func(b *ssa.BasicBlock, kind string, steps []step, onPath map[*ssa.BasicBlock]bool)
+	finish := func(kind string, steps []step, at *ssa.BasicBlock) {
+		nPaths++
+		pos := p.Pos(ev.Pos())
+		if len(steps) > 0 {
+			pos = p.instrPos(steps[len(steps)-1].call)
+		}
+		if kind == "" {
+			r.Bad(pos, name, "step of unknown kind", "an op whose kind is none of value/unary/binary is skipped instead of rejected")
+			return
+		}
+		seenKind[kind] = true
+		var pops, pushes, evals []*ssa.Call
+		for _, st := range steps {
+			switch st.name {
+			case "Pop":
+				pops = append(pops, st.call)
+			case "Push":
+				pushes = append(pushes, st.call)
+			case "Eval":
+				evals = append(evals, st.call)
+			}
+		}
+		w := want[kind]
+		if len(pops) != w[0] || len(pushes) != w[1] {
+			r.Bad(pos, name, "step "+kind, fmt.Sprintf("a way through the %s step pops %d and pushes %d values (must pop %d, push %d): malformed operator sequences are accepted or well-formed ones rejected", kind, len(pops), len(pushes), w[0], w[1]))
+			return
+		}
+		okFlow := true
+		why := ""
+		popVal := func(c *ssa.Call) ssa.Value {
+			if es := extractOf(c, 0); len(es) > 0 {
+				return es[0]
+			}
+			return nil
+		}
+		if kind != "OpTypeValue" {
+			if len(evals) != 1 {
+				okFlow, why = false, "the operator is not evaluated exactly once"
+			} else {
+				e := evals[0]
+				args := callArgs(&e.Call)
+				// receiver: the loop's op asserted to the kind's interface
+				if !dependsOn(args[0], func(x ssa.Value) bool { return rl.isElem(x) }) {
+					okFlow, why = false, "the evaluated operator is not the current op"
+				}
+				if kind == "OpTypeUnary" && (len(args) < 2 || unwrap(args[1]) != popVal(pops[0])) {
+					okFlow, why = false, "the unary operand is not the popped value"
+				}
+				if kind == "OpTypeBinary" && (len(args) < 3 || unwrap(args[1]) != popVal(pops[1]) || unwrap(args[2]) != popVal(pops[0])) {
+					okFlow, why = false, "the binary operands are not (second popped, first popped) = (left, right)"
+				}
+				if okFlow {
+					res := extractOf(e, 0)
+					if len(res) == 0 || unwrap(pushes[0].Call.Args[len(pushes[0].Call.Args)-1]) != res[0] {
+						okFlow, why = false, "the pushed value is not the operator's result"
+					}
+				}
+			}
+		}
+		r.Check(okFlow, pos, name, "step "+kind, fmt.Sprintf("pops %d, evaluates the current op on them, pushes the result", w[0]), "in the "+kind+" step "+why)
+	}
+	walk = func(b *ssa.BasicBlock, kind string, steps []step, onPath map[*ssa.BasicBlock]bool) {
+		if b == rl.header {
+			finish(kind, steps, b)
+			return
+		}
+		if !rl.body[b] || onPath[b] {
+			return // leaves the loop (return) or inner cycle: not a completed step
+		}
+		onPath[b] = true
+		defer delete(onPath, b)
+		for _, in := range b.Instrs {
+			if c, ok := in.(*ssa.Call); ok {
+				if f := c.Call.StaticCallee(); f != nil && p.pkgShort(f) == "datalog" && (f.Name() == "Pop" || f.Name() == "Push") {
+					steps = append(steps[:len(steps):len(steps)], step{c, f.Name()})
+				} else if c.Call.IsInvoke() && c.Call.Method.Name() == "Eval" {
+					steps = append(steps[:len(steps):len(steps)], step{c, "Eval"})
+				}
+			}
+		}
+		if i := blockIf(b); i != nil {
+			cond, onT, onF := condOf(i)
+			kT, kF := kind, kind
+			if bo, ok := cond.(*ssa.BinOp); ok && bo.Op == token.EQL && strings.HasSuffix(p.D(bo.X), ".Type()") && dependsOn(bo.X, func(x ssa.Value) bool { return rl.isElem(x) }) {
+				if k, isC := constInt(bo.Y); isC && kinds[k] != "" && isNamed(bo.X.Type(), pkgPathOf("datalog"), "OpType") {
+					kT = kinds[k]
+				}
+			}
+			walk(onT, kT, steps, onPath)
+			walk(onF, kF, steps, onPath)
+			return
+		}
+		for _, s := range b.Succs {
+			walk(s, kind, steps, onPath)
+		}
+	}
+	walk(rl.bodyBB, "", nil, map[*ssa.BasicBlock]bool{})
+	for _, k := range []string{"OpTypeValue", "OpTypeUnary", "OpTypeBinary"} {
+		if !seenKind[k] {
+			r.Bad(p.Pos(ev.Pos()), name, "step "+k, "no way through the loop handles ops of kind "+k)
+		}
+	}
+	if nPaths > 200 {
+		r.Dunno(p.Pos(ev.Pos()), name, "steps", "too many ways through one step to enumerate")
+	}
+}
+
+func ruleFXBind(p *Prog, r *Reporter) {
+	globalP = p
+	mv := p.NamedType("datalog", "MatchedVariables")
+	if mv == nil {
+		r.Dunno("?", "datalog.MatchedVariables", "type", "not found")
+		return
+	}
+	isMV := func(t types.Type) bool { return types.Identical(t, mv) }
+	for _, fn := range p.funcsIn("datalog", "biscuit") {
+		name := p.FuncName(fn)
+		for _, b := range fn.Blocks {
+			for _, in := range b.Instrs {
+				mu, ok := in.(*ssa.MapUpdate)
+				if !ok || !isMV(mu.Map.Type()) {
+					continue
+				}
+				pos := p.instrPos(mu)
+				recv := fn.Signature.Recv() != nil && isMV(fn.Signature.Recv().Type())
+				switch {
+				case recv && fn.Name() == "Insert":
+					// m[k] = &v only when nothing is bound yet
+					okG := false
+					for _, g := range guardsOf(b) {
+						if bo, isB := g.cond.(*ssa.BinOp); isB {
+							if k, isK := bo.Y.(*ssa.Const); isK && k.IsNil() && ((bo.Op == token.EQL && g.val) || (bo.Op == token.NEQ && !g.val)) {
+								if lk, isL := unwrap(bo.X).(*ssa.Lookup); isL && lk.X == mu.Map && lk.Index == mu.Key {
+									okG = true
+								}
+							}
+						}
+					}
+					r.Check(okG, pos, name, "first binding", "stored only when the variable is still unbound", "Insert overwrites a binding without testing that the variable is unbound")
+				case recv && fn.Name() == "Clone":
+					_, fresh := mu.Map.(*ssa.MakeMap)
+					r.Check(fresh, pos, name, "copy", "fills a freshly made map", "Clone writes into a map that is not fresh")
+				default:
+					k, isK := mu.Value.(*ssa.Const)
+					r.Check(isK && k.IsNil(), pos, name, "direct write of a binding", "declares the variable as unbound (nil)", "a variable binding is written directly, bypassing MatchedVariables.Insert: a variable that occurs twice is overwritten instead of unified, so facts that do not satisfy the rule body match")
+				}
+			}
+		}
+	}
+	// Insert: every result is `true` after the first binding or Equal(existing)
+	ins := p.method(mv, "Insert")
+	if ins == nil {
+		r.Dunno("?", "datalog.MatchedVariables.Insert", "verdict", "not found")
+		return
+	}
+	for _, ret := range returnsOf(ins) {
+		v := retVal(ret, 0)
+		ok := false
+		why := "the verdict for an already bound variable is not Equal(existing binding)"
+		if k, isK := v.(*ssa.Const); isK {
+			// constant true only on the path that has just stored the first binding
+			if k.Value != nil && k.Value.String() == "true" {
+				for _, in := range ret.Block().Instrs {
+					if _, isMU := in.(*ssa.MapUpdate); isMU {
+						ok = true
+					}
+				}
+				why = "Insert answers true without binding or comparing"
+			} else {
+				ok = true // constant false is always safe
+			}
+		} else if c, isC := v.(*ssa.Call); isC && c.Call.IsInvoke() && c.Call.Method.Name() == "Equal" {
+			// v.Equal(*existing) or (*existing).Equal(v)
+			a, b2 := p.D(c.Call.Value), p.D(c.Call.Args[0])
+			prm := ins.Params[2].Name()
+			ex := func(d string) bool { return strings.Contains(d, ins.Params[0].Name()+"["+ins.Params[1].Name()+"]") }
+			ok = (a == prm && ex(b2)) || (b2 == prm && ex(a))
+		}
+		r.Check(ok, p.instrPos(ret), p.FuncName(ins), "verdict", "true after the first binding, otherwise Equal with the existing binding", why)
 	}
 }
